@@ -30,7 +30,10 @@ FILE_NAMES = ["alpha", "shared", "item", "type", "kind", "common", "value", "pro
 ONEOF_NAMES = ["pick", "choice", "kind_of", "type", "source", "from"]
 PLAIN_FIELDS = ["name", "id", "alpha", "shared", "item", "kind", "proto", "value", "a", "b", "x", "node",
                 "display_name", "item_id", "a_1", "b2b", "common", "parent", "page_size", "etag", "x_y_z",
-                "timestamp", "status", "details", "key", "entry"]
+                "timestamp", "status", "details", "key", "entry",
+                # names that differ from another pool name only by case or by a trailing underscore (distinct JSON names
+                # are enforced by fresh_name, as protoc does)
+                "Name", "ID", "Type", "type_", "from_", "name_", "nameValue", "kind_"]
 RESERVED_FIELDS = ["type", "class", "import", "from", "in", "max", "format", "next", "list", "hash", "object",
                    "self", "cls", "license", "all", "not", "None", "True", "zip", "mapping", "ignore_unknown_fields"]
 EXT_MSGS = ["google.protobuf.Timestamp", "google.protobuf.Duration", "google.protobuf.Any", "google.protobuf.Struct",
@@ -80,6 +83,33 @@ def ask(ctx, ops):
             if attempt == 39:
                 raise
             time.sleep(3)
+
+
+DEP_PACKAGE = "acme.dep.v1"
+DEP_FILE_NAMES = ["shared", "common", "item", "dep_types", "value"]
+
+
+def ext_lookup(spec, ref):
+    """a type outside the target package: of the proto-plus dependency package of the spec (spec["dep"], generated
+    as its own library and named in `proto-plus-deps`) or of an installed dependency file"""
+    d = spec.get("dep")
+    if d:
+        ds = symbols(d)
+        if ref in ds:
+            x = ds[ref]
+            return {"kind": x["kind"], "proto": proto_path(d, {"name": x["file"]}), "package": d["package"], "path": x["path"],
+                    "proto_plus": True, "module": x["file"],
+                    "field_refs": [fl.get("ref") for fl in x["spec"]["fields"] if fl.get("ref")] if x["kind"] == "message" else [],
+                    "has_map": x["kind"] == "message" and any(fl["card"] == "map" for fl in x["spec"]["fields"])}
+    kind, fname, package, path = ext_index()[ref]
+    return {"kind": kind, "proto": fname, "package": package, "path": path, "proto_plus": False,
+            "module": fname.split("/")[-1][:-len(".proto")],
+            "field_refs": ext_field_types(ref) if kind == "message" else [], "has_map": False}
+
+
+def in_proto_plus_package(spec, full):
+    """the message lives in a package whose classes are proto-plus classes (target package or spec["dep"])"""
+    return full.startswith(spec["package"] + ".") or (spec.get("dep") is not None and full.startswith(spec["dep"]["package"] + "."))
 
 
 # --------------------------------------------------------------------------------------------- spec → descriptors
@@ -164,7 +194,6 @@ def _msg_pb(m, pb, full):
 
 
 def build_files(spec):
-    ext = ext_index()
     syms = symbols(spec)
     out = []
     for f in spec["files"]:
@@ -180,7 +209,7 @@ def build_files(spec):
                     if d not in deps:
                         deps.append(d)
             else:
-                d = ext[ref][1]
+                d = ext_lookup(spec, ref)["proto"]
                 if d not in deps:
                     deps.append(d)
 
@@ -244,10 +273,18 @@ def all_msgs(m, path):
         yield from all_msgs(n, path + [m["name"]])
 
 
-def gen_spec(r, big=False, shadow_bias=0.0):
-    pkg = r.pick(PACKAGES)
-    nfiles = r.pick([1, 2, 2, 3])
-    fnames = r.sample(FILE_NAMES, nfiles)
+def gen_spec(r, big=False, pkg=None, fnames=None, with_dep=None):
+    dep = None
+    if pkg is None:
+        pkg = r.pick(PACKAGES)
+        if with_dep is None:
+            with_dep = r.maybe(0.3)
+        if with_dep:
+            # a second package generated as its own proto-plus library and named in `proto-plus-deps`
+            dep = gen_spec(r, big=False, pkg=DEP_PACKAGE, fnames=[r.pick(DEP_FILE_NAMES)])
+    if fnames is None:
+        nfiles = r.pick([1, 2, 2, 3])
+        fnames = r.sample(FILE_NAMES, nfiles)
     files = []
     used_top = set()
     for fn in fnames:
@@ -261,9 +298,17 @@ def gen_spec(r, big=False, shadow_bias=0.0):
             f["messages"].append(gen_skeleton(r, 1, used_top, big))
         files.append(f)
     spec = {"package": pkg, "files": files}
+    if dep is not None:
+        spec["dep"] = dep
     ext = ext_index()
     ext_msgs = [x for x in EXT_MSGS if x in ext]
     ext_enums = [x for x in EXT_ENUMS if x in ext]
+    if dep is not None:
+        dsyms = symbols(dep)
+        dm = [k for k, v in dsyms.items() if v["kind"] == "message"]
+        de = [k for k, v in dsyms.items() if v["kind"] == "enum"]
+        ext_msgs = dm * 3 + ext_msgs
+        ext_enums = de * 3 + ext_enums
     syms = symbols(spec)
     order = {f["name"]: i for i, f in enumerate(files)}
     for fi, f in enumerate(files):
@@ -371,7 +416,7 @@ def fill_fields(r, m, full, path, local_m, local_e, earlier_m, earlier_e, ext_m,
         for _ in range(50):
             n = r.pick(RESERVED_FIELDS) if r.maybe(0.3) else r.pick(PLAIN_FIELDS)
             j = apigen.json_name(n)
-            if n in taken or j in json_taken or map_entry_name(n) in taken:
+            if n in taken or j in json_taken or j in taken or map_entry_name(n) in taken:
                 continue
             taken.add(n)
             json_taken.add(j)
@@ -412,7 +457,7 @@ def fill_fields(r, m, full, path, local_m, local_e, earlier_m, earlier_e, ext_m,
         elif roll < 0.72:
             m["fields"].append(typed({"name": fresh_name(), "number": next_number(), "card": "optional"}))
         elif roll < 0.86:
-            cands = [o for o in ONEOF_NAMES if o not in taken]
+            cands = [o for o in ONEOF_NAMES if o not in taken and o not in json_taken]   # (upb keeps oneofs and JSON names in one table)
             if not cands:
                 continue
             o = r.pick(cands)
@@ -511,14 +556,13 @@ def expected_attr(name):
 def model_target(spec, syms, ref):
     if ref is None:
         return None
-    ext = ext_index()
     if ref in syms:
         s = syms[ref]
         return {"enum": s["kind"] == "enum", "package": spec["package"].split("."), "module": s["file"],
                 "parent": s["path"][:-1], "name": s["path"][-1], "proto_plus": True}
-    kind, fname, package, path = ext[ref]
-    return {"enum": kind == "enum", "package": package.split("."), "module": fname.split("/")[-1][:-len(".proto")],
-            "parent": path[:-1], "name": path[-1], "proto_plus": False}
+    x = ext_lookup(spec, ref)
+    return {"enum": x["kind"] == "enum", "package": x["package"].split("."), "module": x["module"],
+            "parent": x["path"][:-1], "name": x["path"][-1], "proto_plus": x["proto_plus"]}
 
 
 def model_field(spec, syms, full, fl):
@@ -548,7 +592,6 @@ def file_collisions(spec, f):
     syms = symbols(spec)
     names = set()
     mods = {}
-    ext = ext_index()
 
     def note_mod(ref):
         if ref is None:
@@ -556,8 +599,8 @@ def file_collisions(spec, f):
         if ref in syms:
             mods.setdefault(syms[ref]["file"], set()).add(spec["package"])
         else:
-            _, fname, package, _ = ext[ref]
-            mods.setdefault(fname.split("/")[-1][:-6], set()).add(package)
+            x = ext_lookup(spec, ref)
+            mods.setdefault(x["module"], set()).add(x["package"])
     for full, s in syms.items():
         if s["file"] != f["name"]:
             continue
@@ -581,8 +624,11 @@ def file_collisions(spec, f):
                 if fl["card"] == "map":          # the entry message is a field type living in the message's own module
                     mods.setdefault(syms[ref]["file"], set()).add(spec["package"])
                 reach(fl.get("ref"))
-        elif ref in ext and ext[ref][0] == "message":
-            for t in ext_field_types(ref):
+        elif ref not in syms:
+            x = ext_lookup(spec, ref)
+            if x["has_map"]:
+                mods.setdefault(x["module"], set()).add(x["package"])
+            for t in x["field_refs"]:
                 reach(t)
     for full, s in syms.items():
         if s["file"] == f["name"] and s["kind"] == "message":
@@ -653,6 +699,8 @@ def spec_stats(ctx, spec):
             ctx.count("types", "enum")
             continue
         ctx.count("types", "message")
+        for o in s["spec"]["oneofs"]:
+            ctx.count("oneof_members", sum(1 for fl in s["spec"]["fields"] if fl["card"] == "oneof:" + o))
         for fl in s["spec"]["fields"]:
             card = fl["card"].split(":")[0]
             ctx.count("cardinality", card)
@@ -678,19 +726,89 @@ def spec_stats(ctx, spec):
                         k = "same-file"
                     ctx.count("reference", k)
                 else:
-                    ctx.count("reference", "dependency-package")
+                    ctx.count("reference", "proto-plus-dependency-package" if ext_lookup(spec, ref)["proto_plus"] else "dependency-package")
     for _ in shadow_refs(spec):
         ctx.count("reference", "shadowed-nested-name (repaired 92701a6)")
     ctx.count("nesting_depth", depth)
     ctx.count("files", len(spec["files"]))
 
 
+def has_unknown(codec, full, b64):
+    """bytes produced by the emitted class carry fields (at any depth) the input descriptor does not know"""
+    m = codec.cls(full)()
+    m.ParseFromString(base64.b64decode(b64))
+    a = m.SerializeToString(deterministic=True)
+    m.DiscardUnknownFields()
+    return a != m.SerializeToString(deterministic=True)
+
+
+def literal_of(spec, dyn):
+    """the set fields of a dynamic message (INPUT descriptors) as a literal a caller of the emitted library would
+    write: keyed by the python attribute (proto name, plus `_` iff reserved), nested messages of proto-plus packages as
+    dicts, messages of *_pb2 packages as instances, enums as numbers (tagged JSON, decoded by libhost_types._lit)"""
+    out = {}
+    FD = dp.FieldDescriptorProto
+
+    def scalar(fd, v):
+        if fd.message_type is not None:
+            if in_proto_plus_package(spec, fd.message_type.full_name):
+                return {"msg": literal_of(spec, v)}
+            return {"pb": [fd.message_type.full_name, base64.b64encode(v.SerializeToString(deterministic=True)).decode()]}
+        if fd.enum_type is not None:
+            return {"i": int(v)}
+        if fd.type == FD.TYPE_BYTES:
+            return {"b64": base64.b64encode(v).decode()}
+        if fd.type == FD.TYPE_STRING:
+            return {"s": v}
+        if fd.type == FD.TYPE_BOOL:
+            return {"b": bool(v)}
+        if fd.type in (FD.TYPE_DOUBLE, FD.TYPE_FLOAT):
+            return {"f": float(v)}
+        return {"i": int(v)}
+    for fd, val in dyn.ListFields():
+        key = expected_attr(fd.name)
+        if fd.message_type is not None and fd.message_type.GetOptions().map_entry:
+            kf, vf = fd.message_type.fields_by_name["key"], fd.message_type.fields_by_name["value"]
+            out[key] = {"map": [[scalar(kf, k), scalar(vf, val[k])] for k in val]}
+        elif fd.label == fd.LABEL_REPEATED:
+            out[key] = {"list": [scalar(fd, x) for x in val]}
+        else:
+            out[key] = scalar(fd, val)
+    return out
+
+
+def zero_valuation(codec, full):
+    """every explicit-presence scalar/enum field (proto3 optional; the first such member of each real oneof) SET to
+    its zero value: the wire then carries `tag 0`, which an implicit-presence declaration would drop"""
+    dyn = codec.cls(full)()
+    FD = dp.FieldDescriptorProto
+    done = set()
+    for fd in dyn.DESCRIPTOR.fields:
+        if fd.message_type is not None or fd.label == fd.LABEL_REPEATED or not fd.has_presence:
+            continue
+        o = fd.containing_oneof.name if fd.containing_oneof is not None else None
+        if o in done:
+            continue
+        if o is not None:
+            done.add(o)
+        zero = "" if fd.type == FD.TYPE_STRING else b"" if fd.type == FD.TYPE_BYTES else False if fd.type == FD.TYPE_BOOL \
+            else 0.0 if fd.type in (FD.TYPE_DOUBLE, FD.TYPE_FLOAT) else 0
+        setattr(dyn, fd.name, zero)
+    return dyn
+
+
+def gen_params(spec):
+    return "autogen-snippets=false" + (",proto-plus-deps=" + spec["dep"]["package"] if spec.get("dep") else "")
+
+
 def run_spec(ctx, r, spec, label, nvals=None):
     ctx.case({"label": label, "package": spec["package"], "files": [f["name"] for f in spec["files"]],
-              "types": len(symbols(spec))}, distinct_key=json.dumps(spec, sort_keys=True))
+              "types": len(symbols(spec)), "dep": bool(spec.get("dep"))}, distinct_key=json.dumps(spec, sort_keys=True))
     spec_stats(ctx, spec)
     files = build_files(spec)
-    req = apigen.request(files, "autogen-snippets=false")      # also loads the set into a DescriptorPool (protoc's checks)
+    dep_files = build_files(spec["dep"]) if spec.get("dep") else []
+    # also loads the set into a DescriptorPool (protoc's checks)
+    req = apigen.request(dep_files + files, gen_params(spec), targets=files)
     syms = symbols(spec)
     shadows = shadow_refs(spec)
     payload = {"spec": spec}
@@ -700,30 +818,50 @@ def run_spec(ctx, r, spec, label, nvals=None):
         ctx.fail("generation-crash:" + genrun.crash_signature(e), f"API.build raised {type(e).__name__}: {str(e)[:300]}", payload)
         return
     t2(ctx, spec, syms, api, payload)
+    t2_schema(ctx, spec, api, files, payload)
     res, err = generate_from(api, opts)
     if err:
         ctx.fail("generation-crash:" + err[0], f"generator raised {err[0]}: {err[1]}", payload)
         return
+    dep_res = None
+    if dep_files:       # the dependency package is generated as a library of its own and installed next to the target one
+        try:
+            dapi, dopts = genrun.build_api(apigen.request(dep_files, "autogen-snippets=false"))
+            dep_res, derr = generate_from(dapi, dopts)
+        except BaseException as e:  # noqa
+            dep_res, derr = None, (genrun.crash_signature(e), str(e)[:300])
+        if derr:
+            ctx.fail("generation-crash:" + derr[0], f"generator raised {derr[0]} on the dependency package: {derr[1]}", {"spec": spec["dep"]})
+            return
     pypkg = ".".join(api.naming.module_namespace + (api.naming.versioned_module_name,))
-    codec = rpc.Codec(files)
+    codec = rpc.Codec(dep_files + files)
     nvals = nvals if nvals is not None else ctx.n(2, 4)
     trips = []
     vr = apigen.Rng(r.random(), "valuations")
     for full, s in syms.items():
         if s["kind"] != "message":
             continue
+        dyns = []
         for k in range(nvals):
             v = rpc.rand_msg(vr, codec, full, p_set=0.45, force=[fl["name"] for fl in s["spec"]["fields"]] if k == 0 else ())
             dyn = codec.cls(full)()
             json_format.ParseDict(v, dyn, descriptor_pool=codec.pool)
-            trips.append({"full": full, "b64": base64.b64encode(dyn.SerializeToString(deterministic=True)).decode(),
-                          "json": json_format.MessageToJson(dyn, descriptor_pool=codec.pool), "value": v,
+            dyns.append(("random", dyn))
+        z = zero_valuation(codec, full)
+        if z.ListFields():
+            dyns.append(("zeros", z))
+        for kind, dyn in dyns:
+            data = dyn.SerializeToString(deterministic=True)
+            trips.append({"full": full, "kind": kind, "b64": base64.b64encode(data).decode(),
+                          "json": json_format.MessageToJson(dyn, descriptor_pool=codec.pool), "value": codec.decode(full, data),
+                          "literal": literal_of(spec, dyn),
                           "want_json": json_format.MessageToDict(dyn, always_print_fields_with_no_presence=True,
                                                                  use_integers_for_enums=True, descriptor_pool=codec.pool)})
-    root = genrun.materialise(res)
+    root = genrun.materialise(dep_res) if dep_res is not None else None
+    root = genrun.materialise(res, root)
     try:
         out = libhost.run(root, [{"op": "types_session", "package": pypkg,
-                                  "roundtrips": [{k: t[k] for k in ("full", "b64", "json")} for t in trips]}], timeout=600)[0]
+                                  "roundtrips": [{k: t[k] for k in ("full", "b64", "json", "literal")} for t in trips]}], timeout=600)[0]
     finally:
         genrun.cleanup(root)
     if "messages" not in out:
@@ -853,11 +991,21 @@ def compare(ctx, spec, syms, files, out, model, trips, codec, shadows, payload):
             ctx.fail("roundtrip:raised:" + rt_["stage"], f"{t['full']}: {rt_['stage']} raised {rt_['raised']}: {rt_['msg']}", pl)
             continue
         back = codec.decode(t["full"], rt_["bytes_out"])
-        if back != t["value"]:
+        if back != t["value"] or has_unknown(codec, t["full"], rt_["bytes_out"]):
             ctx.fail("roundtrip:bytes", f"{t['full']}: deserialize→serialize gives {back}, sent {t['value']}", pl)
         back2 = codec.decode(t["full"], rt_["from_json_out"])
         if back2 != t["value"]:
             ctx.fail("roundtrip:from-json", f"{t['full']}: from_json→serialize gives {back2}, sent {t['value']}", pl)
+        for k, what in (("ctor_out", "Class(literal dict)"), ("setattr_out", "attribute-by-attribute assignment"),
+                        ("kwargs_out", "Class(**keywords)")):
+            if k in rt_:
+                back3 = codec.decode(t["full"], rt_[k])
+                if back3 != t["value"] or has_unknown(codec, t["full"], rt_[k]):
+                    ctx.fail("literal:" + k[:-4], f"{t['full']}: {what} serialises to {back3}, the caller wrote {t['value']}", pl)
+        if "ctor_json" in rt_ and json.loads(rt_["ctor_json"]) != t["want_json"]:
+            ctx.fail("literal:json", f"{t['full']}: to_json of Class(literal) {json.loads(rt_['ctor_json'])} != JSON under the input "
+                     f"descriptors {t['want_json']}", pl)
+        ctx.count("valuation", t.get("kind", "random"))
         got_json = json.loads(rt_["json_out"])
         if got_json != t["want_json"]:
             ka, kb = _keys(got_json), _keys(t["want_json"])
@@ -892,7 +1040,8 @@ def check_message(ctx, full, want, got, rt, shadow_set, payload):
         if g["name"] != attr:
             ctx.fail("descriptor:name", f"{full}: field {num} is attribute {g['name']!r}, expected {attr!r}", payload)
         stripped = g["name"][:-1] if g["name"].endswith("_") and g["name"][:-1] in RESERVED else g["name"]
-        if stripped != w["name"]:
+        own_suffix = w["name"].endswith("_") and w["name"][:-1] in RESERVED     # excluded by wire_name_recovered's hypothesis
+        if stripped != w["name"] and not own_suffix:
             ctx.fail("descriptor:name", f"{full}: field {num} run-time name {g['name']!r} does not strip to {w['name']!r}", payload)
         for aspect in ("type", "repeated", "type_name", "oneof", "optional", "map"):
             if w[aspect] != g[aspect]:
@@ -1035,6 +1184,91 @@ def t2(ctx, spec, syms, api, payload):
             ctx.fail("attr-rule", f"Field.name({n!r}) = {real_attr[n]!r}: not the name plus one underscore iff reserved", payload)
         if mo["json"] != apigen.json_name(n) or mo["json_attr"] != apigen.json_name(n):
             ctx.disagree("T2:c02.json_name", f"model lowerCamel of {n!r}/{mo['attr']!r} = {mo['json']!r}/{mo['json_attr']!r}, protobuf {apigen.json_name(n)!r}", payload)
+
+
+def t2_schema(ctx, spec, api, files, payload):
+    """the loader side (gapic/schema/api.py `_get_fields`, orphan pass; metadata.py is_proto_plus_type, python_import)
+    vs the Lean model (op c02.schema): per field the oneof name and the late-resolved type, per referenced address the
+    proto-plus flag and the python import package"""
+    from gapic.schema import wrappers
+    naming = api.naming
+    deps = [d for d in getattr(naming, "proto_plus_deps", ()) or () if d]
+    for fpb in files:
+        proto = api.protos[fpb.name]
+        local = set()
+
+        def names_of(msgs, enums, prefix):
+            for e in enums:
+                local.add(f"{prefix}.{e.name}")
+            for m in msgs:
+                local.add(f"{prefix}.{m.name}")
+                names_of(m.nested_type, m.enum_type, f"{prefix}.{m.name}")
+        names_of(fpb.message_type, fpb.enum_type, fpb.package)
+        loaded = []
+        seen_prior = set()
+        fields, metas, file_all = [], [], []
+        for e in fpb.enum_type:
+            loaded.append([f"{fpb.package}.{e.name}", True])
+
+        def load(m, full):
+            for e in m.enum_type:
+                loaded.append([f"{full}.{e.name}", True])
+            for n in m.nested_type:
+                load(n, f"{full}.{n.name}")
+            snap = list(loaded)
+            real_msg = proto.all_messages.get(full)
+            by_pb = {f.field_pb.name: f for f in real_msg.fields.values()} if real_msg is not None else {}
+            for f in m.field:
+                tn = f.type_name.lstrip(".") or None
+                if tn and tn not in local and tn not in seen_prior:
+                    seen_prior.add(tn)
+                fields.append({"decls": [o.name for o in m.oneof_decl], "idx": f.oneof_index if f.HasField("oneof_index") else None,
+                               "tn": tn, "loaded": snap, "_prior": tn if tn and tn not in local else None})
+                metas.append((full, f.name, by_pb.get(f.name)))
+            loaded.append([full, False])
+        for m in fpb.message_type:
+            load(m, f"{fpb.package}.{m.name}")
+        file_all = [x for x in loaded]
+        # types of prior protos a field may name (everything else of the prior protos is irrelevant to a lookup by name)
+        prior = []
+        syms_ = symbols(spec)
+        for tn in sorted(seen_prior):
+            if tn in syms_:
+                prior.append([tn, syms_[tn]["kind"] == "enum"])
+            else:
+                try:
+                    prior.append([tn, ext_lookup(spec, tn)["kind"] == "enum"])
+                except KeyError:
+                    pass            # a map-entry type of another file cannot be named by a field
+        for fj in fields:
+            fj["loaded"] = prior + fj["loaded"]
+            del fj["_prior"]
+        idents = {}
+        for full, fname, real in metas:
+            if real is not None and (real.message or real.enum):
+                idents[real.type.ident.proto] = real.type.ident
+        keys = sorted(idents)
+        mo = ask(ctx, [{"op": "c02.schema", "fields": fields, "file_all": file_all, "api": naming.proto_package,
+                        "api_root": list(naming.module_namespace) + [naming.versioned_module_name], "deps": deps,
+                        "addrs": [addr_json(idents[k]) for k in keys]}])[0]
+        for (full, fname, real), fm in zip(metas, mo["fields"]):
+            ctx.traces += 1
+            if real is None:
+                ctx.fail("schema:fields-lost", f"{full}.{fname}: the schema has no such field", payload)
+                continue
+            if fm["oneof"] != real.oneof:
+                ctx.disagree("T2:c02.oneof_name", f"{full}.{fname}: Field.oneof={real.oneof!r}, model {fm['oneof']!r}", payload)
+            t = real.type
+            got = [t.ident.proto, isinstance(t, wrappers.EnumType)] if isinstance(t, (wrappers.MessageType, wrappers.EnumType)) else None
+            if got != fm["resolved"]:
+                ctx.disagree("T2:c02.resolve", f"{full}.{fname}: Field.type={got}, model {fm['resolved']}", payload)
+        for k, am in zip(keys, mo["addrs"]):
+            ctx.traces += 1
+            ident = idents[k]
+            if bool(ident.is_proto_plus_type) != am["proto_plus"]:
+                ctx.disagree("T2:c02.is_proto_plus_type", f"{k}: impl {ident.is_proto_plus_type}, model {am['proto_plus']}", payload)
+            if list(ident.python_import.package) != am["import_package"]:
+                ctx.disagree("T2:c02.python_import", f"{k}: impl {list(ident.python_import.package)}, model {am['import_package']}", payload)
 
 
 def t2_tables(ctx):
